@@ -7,7 +7,9 @@ real stdout/stderr are redirected so library chatter cannot corrupt the protocol
 import importlib, json, os, signal, sys, traceback
 
 
-class Hang(Exception):
+class Hang(BaseException):
+    """raised by the watchdog; a BaseException so that `logging` (which swallows Exception raised while a
+    handler runs) cannot eat it inside a library loop that logs on every round"""
     pass
 
 
